@@ -454,6 +454,7 @@ func TestC10(t *testing.T) {
 	if run.Thorough() && !run.Replaying() {
 		c10Concurrent(t, run)
 	}
+	run.Complete()
 	if run.Violations() > 0 {
 		t.Errorf("%d violation(s)", run.Violations())
 	}
